@@ -77,21 +77,18 @@ def shard(desc):
             if not early:
                 return mod.oracle(pop, date, sh, ctx)
             sh.classes["early-date-case(2005-2014)"] += 1
-            try:
-                return mod.oracle(pop, date, sh, ctx)
-            except Exception:
-                # domain guard: an incomplete year may lack a parameter in some branch; if the plain
-                # simulation of this population fails, the case is outside the domain, otherwise the
-                # exception is the check's own and propagates
-                from . import env
+            # domain guard: an incomplete year may lack a parameter or a table entry in some branch; a
+            # population whose plain simulation of all screened nodes fails is outside the domain (whether
+            # a check reports such a failure as an exception or as a verdict of a comparison run)
+            from . import env
 
-                df = pop.df if hasattr(pop, "df") else pop[0].df
-                try:
-                    env.simulate(df, date, targets=env.all_nodes(date))
-                except Exception:  # noqa: BLE001
-                    sh.classes["early-date-case-outside-domain(plain simulation raises)"] += 1
-                    return []
-                raise
+            df = pop.df if hasattr(pop, "df") else pop[0].df
+            try:
+                env.simulate(df, date, targets=env.all_nodes(date))
+            except Exception:  # noqa: BLE001
+                sh.classes["early-date-case-outside-domain(plain simulation raises)"] += 1
+                return []
+            return mod.oracle(pop, date, sh, ctx)
 
         strat = mod.strategy(date, ctx) if hasattr(mod, "strategy") else popgen.populations(date, **gen)
         core.explore(strat, oracle, n=desc["n"],
